@@ -180,7 +180,10 @@ class Runner:
         det = {"status": obs, "model": m}
         if pend != m["pending"] or ooo != m["ooo"]:
             key = "status|pending-differs"
-            if last and w.revs[last].get("rp") and pend == [last] + m["pending"]:
+            alt = L.pending(w.file_list(), w.rev_list(), "linear", None, gate_open, w.dirty(), inner_partial_applied=True)
+            if any(p for _, p in w.rev_list()[:-1]) and (pend, ooo) == (alt["pending"], alt["ooo"]):
+                key = "partial-not-last-revision|treated-as-applied"
+            elif last and w.revs[last].get("rp") and pend == [last] + m["pending"]:
                 key = "set|resolved-partial-still-pending"
             elif pend == m["pending"]:
                 key = "status|out-of-order-differs"
